@@ -34,6 +34,7 @@ type rsBlock struct {
 	ver    int // version of this block number (1 = first ever, +1 per replacement)
 	hash   common.Hash
 	extras int // further events besides the marker
+	quiet  bool // no events at all: the downloader does not deliver this block, so it is neither stored nor tracked
 }
 
 type rsChain struct {
@@ -98,18 +99,22 @@ func (d *rsDownloader) Download(ctx context.Context, from uint64, ch chan sync.E
 			return
 		case reply := <-run.permits:
 			d.c.mu.Lock()
-			if cursor > uint64(len(d.c.blocks)) {
+			next := cursor // the first block with events at or after the cursor, as the chain is now
+			for next <= uint64(len(d.c.blocks)) && d.c.blocks[next-1].quiet {
+				next++
+			}
+			if next > uint64(len(d.c.blocks)) {
 				d.c.mu.Unlock()
 				reply <- false
 				continue
 			}
-			b := d.c.blocks[cursor-1]
-			fin := cursor <= d.c.fin
+			b := d.c.blocks[next-1]
+			fin := next <= d.c.fin
 			d.c.mu.Unlock()
-			blk := sync.EVMBlock{EVMBlockHeader: sync.EVMBlockHeader{Num: cursor, Hash: b.hash}, IsFinalizedBlock: fin, Events: d.evsOf(cursor, b)}
+			blk := sync.EVMBlock{EVMBlockHeader: sync.EVMBlockHeader{Num: next, Hash: b.hash}, IsFinalizedBlock: fin, Events: d.evsOf(next, b)}
 			select {
 			case ch <- blk:
-				cursor++
+				cursor = next + 1
 				reply <- true
 			case <-ctx.Done():
 				reply <- false
@@ -407,12 +412,17 @@ func (w *rsWorld) exec(line string) string {
 		}
 		w.start()
 		return "ok"
-	case "blk": // blk <extras>: the chain grows by one block
+	case "blk": // blk <extras>|q: the chain grows by one block (q: a block without events)
 		w.chain.mu.Lock()
 		n := uint64(len(w.chain.blocks) + 1)
 		w.chain.nextV[n]++
 		v := w.chain.nextV[n]
-		b := rsBlock{ver: v, hash: rsHeader(n, v).Hash(), extras: int(u(ws[1]))}
+		b := rsBlock{ver: v, hash: rsHeader(n, v).Hash()}
+		if ws[1] == "q" {
+			b.quiet = true
+		} else {
+			b.extras = int(u(ws[1]))
+		}
 		w.chain.blocks = append(w.chain.blocks, b)
 		w.hashOf[b.hash] = fmt.Sprintf("%d.%d", n, v)
 		w.chain.mu.Unlock()
@@ -647,7 +657,9 @@ func (w *rsWorld) exec(line string) string {
 			w.r.Evals++
 			var want []string
 			for n := uint64(1); n <= uint64(len(w.chain.blocks)); n++ {
-				want = append(want, w.canonical(n))
+				if !w.chain.blocks[n-1].quiet {
+					want = append(want, w.canonical(n))
+				}
 			}
 			got := w.stored(s)
 			if lst(got) != lst(want) {
@@ -767,15 +779,27 @@ func rsGen(r *Run, rng *Rng) {
 	}
 	for wi := 0; wi < nw; wi++ {
 		do("new")
-		for i := 0; i < 3; i++ {
-			do(fmt.Sprintf("blk %d", rng.Intn(2)))
+		// two worlds in three are sparse: many blocks have no events, are not delivered and so are neither stored nor
+		// tracked (the normal situation on L1) — the tracked numbers are then far apart
+		quietPct := []int{0, 45, 70}[wi%3]
+		blk := func(maxExtras int) string {
+			if rng.Chance(quietPct) {
+				r.Count("blk:without-events")
+				return "blk q"
+			}
+			return fmt.Sprintf("blk %d", rng.Intn(maxExtras))
 		}
+		for i := 0; i < 3; i++ {
+			do(blk(2))
+		}
+		maxLen := 0
 		for st := 0; st < steps; st++ {
 			tip := uint64(len(w.chain.blocks))
+			maxLen = max(maxLen, len(w.chain.blocks))
 			x := rng.Intn(100)
 			switch {
 			case x < 25:
-				do(fmt.Sprintf("blk %d", rng.Intn(3)))
+				do(blk(3))
 			case x < 55:
 				op := "step"
 				if rng.Chance(20) {
@@ -796,7 +820,7 @@ func rsGen(r *Run, rng *Rng) {
 						n = rng.Intn(int(tip-k) + 1)
 					}
 					for j := 0; j < n; j++ {
-						do(fmt.Sprintf("blk %d", rng.Intn(3)))
+						do(blk(3))
 					}
 					w.r.Case(fmt.Sprintf("reorg:%d:%d", min(int(tip-k), 4), min(n, 4)))
 				}
@@ -812,9 +836,10 @@ func rsGen(r *Run, rng *Rng) {
 				}
 			}
 		}
-		// let the chain grow past everything that was ever tracked, then require convergence
-		for i := 0; i < 4; i++ {
-			do(fmt.Sprintf("blk %d", rng.Intn(2)))
+		// let the chain grow past everything that was ever tracked (the detector cannot judge a tracked block the chain does not
+		// reach yet: it waits), then require convergence
+		for i := 0; i < 4 || len(w.chain.blocks) < maxLen; i++ {
+			do(blk(2))
 		}
 		do("end")
 		if wi < 2 {
